@@ -125,11 +125,7 @@ def replay(path):
         from .. import common
         common.ensure_built()
         r = retry_case(tuple(d['replay']['item']))
-        print(r.get('verdict'), r.get('violations'))
-        common.cleanup_scratch()
-        if r.get('verdict') == 'violated':
-            print('VIOLATION property=%s replay=%s' % (PROP, path))
-            return 1
-        return 0
+        from ..framework import replay_result
+        return replay_result(PROP, r, path)
     from ..replay import replay_history
     return replay_history(PROP, path, None)
